@@ -14,6 +14,7 @@ Expressions E are in the protocol form of the BareScript expression model (numbe
 import copy
 import datetime
 import functools
+import re
 from fractions import Fraction
 
 import fw
@@ -247,10 +248,8 @@ def round_script_numbers(obj):
 # values
 # ---------------------------------------------------------------------------------------------------------------------
 
-def value_to_wire(v, lib=None, depth=0):
-    """Python runtime value -> canonical wire value."""
-    if depth > 30:
-        return '<cycle>'
+def value_to_wire(v, lib=None, path=()):
+    """Python runtime value -> canonical wire value; a container re-entered on the current path renders as '<cycle>'."""
     if v is None or isinstance(v, (bool, str)):
         return v
     if isinstance(v, (int, float)):
@@ -260,10 +259,15 @@ def value_to_wire(v, lib=None, depth=0):
         return {'n': [fr.numerator, fr.denominator]}
     if isinstance(v, datetime.date):
         return {'d': repr(v)}
-    if isinstance(v, list):
-        return [value_to_wire(x, lib, depth + 1) for x in v]
-    if isinstance(v, dict):
-        return {'o': [[k, value_to_wire(v[k], lib, depth + 1)] for k in sorted(v)]}
+    if isinstance(v, (list, dict)):
+        if id(v) in path:
+            return '<cycle>'
+        if len(path) > 200:
+            return '<deep>'
+        sub = path + (id(v),)
+        if isinstance(v, list):
+            return [value_to_wire(x, lib, sub) for x in v]
+        return {'o': [[k, value_to_wire(v[k], lib, sub)] for k in sorted(v)]}
     if callable(v):
         if isinstance(v, functools.partial) and getattr(v.func, '__name__', '') == '_script_function':
             return {'f': 'script'}
@@ -316,7 +320,21 @@ def run_impl(model, globals_=None, max_statements=1000, files=None, system_prefi
             if not (k in library.SCRIPT_FUNCTIONS and v is library.SCRIPT_FUNCTIONS[k])]
     out['globals'] = sorted(user, key=lambda kv: kv[0])
     out['count'] = options.get('statementCount')
-    return out
+    return canon_neg_zero(out)
+
+
+_NEG_ZERO = re.compile(r'(?<![\d.])-0(?![\d.])')
+
+
+def canon_neg_zero(obj):
+    """The rational number model has no negative zero: compare text modulo '-0' -> '0' (documented restriction)."""
+    if isinstance(obj, str):
+        return _NEG_ZERO.sub('0', obj)
+    if isinstance(obj, list):
+        return [canon_neg_zero(x) for x in obj]
+    if isinstance(obj, dict):
+        return {k: canon_neg_zero(v) for k, v in obj.items()}
+    return obj
 
 
 def canon_model_out(resp):
@@ -324,7 +342,7 @@ def canon_model_out(resp):
     out = dict(resp)
     if 'globals' in out:
         out['globals'] = sorted(out['globals'], key=lambda kv: kv[0])
-    return out
+    return canon_neg_zero(out)
 
 
 # ---------------------------------------------------------------------------------------------------------------------
@@ -466,11 +484,27 @@ class Gen:
         if r < 0.86 and in_loop:
             k = self.rng.choice(['break', 'continue'])
             self.count(k)
-            # guard it so that the rest of the body is not dead code
-            return {'k': 'if', 'c': self.cond(), 't': [{'k': k}], 'else': None}
-        if r < 0.90:
-            self.count('return')
-            return {'k': 'ret', 'e': self.expr(2) if self.rng.random() < 0.8 else None}
+            # guard it so that the rest of the body is not dead code; sometimes under two nested ifs / in an else branch
+            shape = self.rng.random()
+            if shape < 0.5:
+                return {'k': 'if', 'c': self.cond(), 't': [{'k': k}], 'else': None}
+            likely = wf_binary(self.rng.choice(['>=', '<', '!=']), var(self.rng.choice(VARS)), num(self.rng.randint(0, 2)))
+            if shape < 0.8:
+                self.count('nested-if-' + k)
+                return {'k': 'if', 'c': likely, 't': [{'k': 'if', 'c': self.cond(), 't': [{'k': k}], 'else': None}], 'else': None}
+            self.count('else-' + k)
+            return {'k': 'if', 'c': self.cond(), 't': self.block(depth + 1, in_loop, in_func, 1),
+                    'else': {'k': 'elif', 'c': likely, 't': [{'k': k}], 'else': None}}
+        if r < 0.885:
+            # a bare `return` ends the whole run: at top level only rarely, inside functions usually guarded
+            if in_func or self.rng.random() < 0.15:
+                self.count('return')
+                ret = {'k': 'ret', 'e': self.expr(2) if self.rng.random() < 0.8 else None}
+                if self.rng.random() < 0.6:
+                    return {'k': 'if', 'c': self.cond(), 't': [ret], 'else': None}
+                return ret
+            self.count('assign')
+            return {'k': 'expr', 'name': self.rng.choice(VARS), 'e': self.expr()}
         if r < 0.94 and not in_func and self.allow_func_defs:
             return self.funcdef(depth)
         if self.allow_raw and r < 0.97:
@@ -482,14 +516,21 @@ class Gen:
         return {'k': 'expr', 'name': self.rng.choice(VARS), 'e': self.expr()}
 
     def funcdef(self, depth, name=None):
+        """A function definition.  To keep runs inside the model (Python's recursion limit is not modelled) the call graph
+        is acyclic: a prelude function fa/fb/fc may call only the prelude functions defined before it; functions defined
+        later (fd/fe, possibly re-defined) call only prelude functions."""
         self.count('funcdef')
         nargs = self.rng.randint(0, 3)
         params = ['p', 'q', 'r'][:nargs]
         laa = nargs > 0 and self.rng.random() < 0.25
-        name = name or self.rng.choice(['fa', 'fb', 'fc'])
+        prelude = ['fa', 'fb', 'fc']
+        if name is None:
+            name = self.rng.choice(['fd', 'fe'])
+            callable_here = [f for f in self.funcs if f[0] in prelude]
+        else:
+            callable_here = [f for f in self.funcs if f[0] in prelude and prelude.index(f[0]) < prelude.index(name)]
         saved = self.funcs
-        body_gen_funcs = list(self.funcs)
-        self.funcs = body_gen_funcs
+        self.funcs = list(callable_here)
         body = self.block(depth + 1, False, True)
         # let bodies use their parameters
         if params:
@@ -506,12 +547,15 @@ class Gen:
         for name in ['fa', 'fb', 'fc'][:self.rng.randint(0, 3)]:
             prog.append(self.funcdef(1, name))
         prog += self.block(0, False, False, self.rng.randint(2, 6))
+        if self.rng.random() < 0.6:
+            prog.append({'k': 'ret', 'e': self.expr(2)})
         return assign_fids(prog)
 
 
 INITIAL_GLOBALS = [
     {}, {'a': 1, 'b': 2.5, 'c': 'str'}, {'a': None, 'b': True, 'c': False, 'n': 0}, {'a': [1, 2, 3], 'b': [], 'x': {'k': 1}},
     {'a': [[1], [2, 3]], 'n': 3, 'x': '', 'y': 'y'}, {'a': 0, 'b': 0, 'c': 0, 'n': 0, 'x': 0, 'y': 0},
+    {'a': {}, 'b': {}, 'c': [], 'n': '', 'x': 0, 'y': None}, {'a': {}, 'b': [0], 'c': {'k': None}, 'n': 1, 'x': {}, 'y': False},
 ]
 
 
@@ -562,10 +606,11 @@ class _Return(Exception):
 
 
 class RefInterp:
-    def __init__(self, options, budget=20000):
+    def __init__(self, options, budget=20000, f7_quirk=False):
         self.mods = fw.impl()
         self.options = options
         self.budget = budget
+        self.f7_quirk = f7_quirk        # emulate known finding F7: `continue` in a `while` restarts the body WITHOUT the test
 
     def ev(self, e, locals_):
         return self.mods['runtime'].evaluate_expression(impl_expr(e), self.options, locals_, False)
@@ -613,13 +658,18 @@ class RefInterp:
                     return
                 node = node.get('else')
         elif k == 'while':
-            while self.truthy(self.ev(s['c'], locals_)):              # condition re-tested before EVERY iteration
+            skip_test = False
+            while True:
+                if not skip_test and not self.truthy(self.ev(s['c'], locals_)):   # condition re-tested before EVERY iteration
+                    break
+                skip_test = False
                 self.step()
                 try:
                     self.block(s['b'], locals_)
                 except _Break:
                     break
                 except _Continue:
+                    skip_test = self.f7_quirk
                     continue
         elif k == 'for':
             values = self.ev(s['vals'], locals_)                      # evaluated once
@@ -693,7 +743,7 @@ class RefInterp:
         return None
 
 
-def run_reference(prog, globals_=None, budget=20000):
+def run_reference(prog, globals_=None, budget=20000, f7_quirk=False):
     """Run the reference interpreter -> outcome dict comparable with run_impl (no count; '__bareScript*' globals absent)."""
     mods = fw.impl()
     library = mods['library']
@@ -703,7 +753,7 @@ def run_reference(prog, globals_=None, budget=20000):
         g.setdefault(name, fn)
     options = {'globals': g, 'maxStatements': 0, 'logFn': log.append, 'statementCount': 0}
     out = {}
-    interp = RefInterp(options, budget)
+    interp = RefInterp(options, budget, f7_quirk)
     try:
         result = interp.run(prog)
         out['result'] = ref_wire(result, library.SCRIPT_FUNCTIONS)
@@ -716,16 +766,19 @@ def run_reference(prog, globals_=None, budget=20000):
     out['log'] = list(log)
     out['globals'] = sorted([[k, ref_wire(v, library.SCRIPT_FUNCTIONS)] for k, v in g.items()
                              if not (k in library.SCRIPT_FUNCTIONS and v is library.SCRIPT_FUNCTIONS[k])], key=lambda kv: kv[0])
-    return out
+    return canon_neg_zero(out)
 
 
-def ref_wire(v, lib):
+def ref_wire(v, lib, path=()):
     if callable(v) and getattr(v, 'ref_script_function', False):
         return {'f': 'script'}
-    if isinstance(v, list):
-        return [ref_wire(x, lib) for x in v]
-    if isinstance(v, dict):
-        return {'o': [[k, ref_wire(v[k], lib)] for k in sorted(v)]}
+    if isinstance(v, (list, dict)):
+        if id(v) in path:
+            return '<cycle>'
+        sub = path + (id(v),)
+        if isinstance(v, list):
+            return [ref_wire(x, lib, sub) for x in v]
+        return {'o': [[k, ref_wire(v[k], lib, sub)] for k in sorted(v)]}
     return value_to_wire(v, lib)
 
 
